@@ -20,7 +20,9 @@ from apischema.json_schema import deserialization_schema, serialization_schema
 PROP = "C12"
 RULE = (
     "worlds = conversion graph (single deserializer+serializer, chain of two, two deserializers in both registration "
-    "orders, generic Wrapper[T], lazy registration, inherited / non-inherited serializer on a subclass, "
+    "orders, generic Wrapper[T] <-> List[T], generic Box[T] <-> T (bare type variable end; registered and dynamic; T in "
+    "{int, str, List[int], dataclass, Optional[int]}; under T / List / Dict), collection-like class with a registered conversion under a dynamic / field conversion "
+    "on its elements, lazy registration, inherited / non-inherited serializer on a subclass, "
     "catch_value_error converter, class with schema()/type_name annotations) x placement (registered, dynamic "
     "conversion=, Annotated, field metadata, default_conversion function, identity bypass) x source type in {int, str, "
     "List[int], dataclass} x context in {T, List, Optional, Dict, Tuple, Union, object field, object field holding a "
@@ -311,6 +313,37 @@ class Wrapper(Generic[TV]):
 def wrap(items: List[TV]) -> Wrapper[TV]: return Wrapper(items)
 def unwrap(w: Wrapper[TV]) -> List[TV]: return w.items
 
+class Box(Generic[TV]):
+    def __init__(self, item): self.item = item
+    def __eq__(self, o): return isinstance(o, Box) and o.item == self.item
+    def __repr__(self): return f"Box({self.item!r})"
+def box(item: TV) -> Box[TV]: return Box(item)
+def unbox(b: Box[TV]) -> TV: return b.item
+@dataclass
+class Pt:
+    x: int
+    y: int = 0
+
+class PtPath(Collection[Pt]):
+    """collection-like class with a registered conversion: a dynamic conversion on Pt is carried through it"""
+    def __init__(self, *pts): self.pts = list(pts)
+    def __iter__(self): return iter(self.pts)
+    def __len__(self): return len(self.pts)
+    def __contains__(self, x): return x in self.pts
+    def __eq__(self, o): return isinstance(o, PtPath) and o.pts == self.pts
+    def __repr__(self): return f"PtPath{tuple(self.pts)!r}"
+def path_to_list(p: PtPath) -> List[Pt]: return list(p)
+def path_from_list(l: List[Pt]) -> PtPath: return PtPath(*l)
+def pt_to_str(p: Pt) -> str: return f"{p.x},{p.y}"
+def pt_from_str(s: str) -> Pt:
+    x, y = s.split(",")
+    return Pt(int(x), int(y))
+@dataclass
+class Drawing:
+    name: str
+    outline: PtPath = field(metadata=conversion(serialization=pt_to_str, deserialization=pt_from_str))
+    raw: PtPath = field(default_factory=PtPath)
+
 @schema(description="a K with annotations", min=0)
 @type_name("KNamed")
 class KA(K): pass
@@ -458,7 +491,100 @@ def special_worlds(st: infra.Stats):
         sys.modules.pop(m.__name__, None)
         apischema.cache.reset()
     _guard('identity bypasses a registered conversion', _sec_5)
-    st.count("special_worlds", 8)
+    def _sec_6():  # generic conversion whose far end is a bare type variable: T <-> Box[T]
+        for placement in ("registered", "dynamic"):
+            m = exec_source(PRELUDE + SPECIAL)
+            dkw: Dict[str, Any] = {}
+            skw: Dict[str, Any] = {}
+            if placement == "registered":
+                apischema.deserializer(m.box)
+                apischema.serializer(m.unbox)
+            else:
+                dkw["conversion"] = m.box
+                skw["conversion"] = m.unbox
+            for tname, T, data in (
+                ("int", int, (1, "a", None)),
+                ("str", str, ("a", 1)),
+                ("list_int", List[int], ([1, 2], ["a"], 0)),
+                ("dc", m.Pt, ({"x": 1}, {"x": "a"}, {"y": 1}, {"x": 1, "y": 2})),
+                ("opt_int", Optional[int], (None, 1, "a")),
+            ):
+                for ctx_name, wrap_t, wrap_d, wrap_v in (
+                    ("T", lambda X: X, lambda d: d, lambda f, v: f(v)),
+                    ("List", lambda X: List[X], lambda d: [d], lambda f, v: [f(x) for x in v]),
+                    ("Dict", lambda X: Dict[str, X], lambda d: {"k": d}, lambda f, v: {k: f(x) for k, x in v.items()}),
+                ):
+                    for d in data:
+                        st.case("typevar_end", placement, tname, ctx_name, repr(d))
+                        got = run(lambda: deserialize(wrap_t(m.Box[T]), wrap_d(d), **dkw))
+                        ref = run(lambda: deserialize(wrap_t(T), wrap_d(d)))
+                        if got[0] != ref[0] or (got[0] == "ok" and got[1] != wrap_v(m.Box, ref[1])) or (got[0] == "invalid" and got[1] != ref[1]):
+                            viol("typevar_end", f"{placement}: deserialize({ctx_name}[Box[{tname}]], {wrap_d(d)!r}) = {got}; {ctx_name}[{tname}] gives {ref}", placement=placement, direction="deserialize")
+                        if ref[0] == "ok":
+                            v = wrap_v(m.Box, ref[1])
+                            s1 = run(lambda: serialize(wrap_t(m.Box[T]), v, check_type=True, **skw))
+                            s2 = run(lambda: serialize(wrap_t(T), ref[1], check_type=True))
+                            if s1 != s2:
+                                viol("typevar_end", f"{placement}: serialize({ctx_name}[Box[{tname}]], {v!r}) = {s1}; {ctx_name}[{tname}] gives {s2}", placement=placement, direction="serialize")
+                        else:
+                            # an ill-typed content must be refused by the type check exactly as for T itself
+                            bad = wrap_v(m.Box, wrap_d(d)) if ctx_name == "T" else None
+                            if bad is not None:
+                                s1 = run(lambda: serialize(m.Box[T], m.Box(d), check_type=True, **skw))
+                                s2 = run(lambda: serialize(T, d, check_type=True))
+                                if s1[0] != s2[0]:
+                                    viol("typevar_end", f"{placement}: serialize(Box[{tname}], Box({d!r}), check_type=True) = {s1}; {tname} gives {s2}", placement=placement, direction="serialize_check_type")
+                    for fn, kw in ((deserialization_schema, dkw), (serialization_schema, skw)):
+                        a, b = run(lambda: fn(wrap_t(m.Box[T]), **kw)), run(lambda: fn(wrap_t(T)))
+                        if a != b:
+                            viol("typevar_end_schema", f"{placement}: {fn.__name__}({ctx_name}[Box[{tname}]]) = {a} != {b}", placement=placement)
+            sys.modules.pop(m.__name__, None)
+            apischema.cache.reset()
+    _guard('typevar-ended generic conversion', _sec_6)
+    def _sec_7():  # dynamic / field conversion carried through the registered conversion of a collection-like class
+        m = exec_source(PRELUDE + SPECIAL)
+        apischema.serializer(m.path_to_list)
+        apischema.deserializer(m.path_from_list)
+        pts = [m.Pt(0, 0), m.Pt(1, 2)]
+        path = m.PtPath(*pts)
+        for ctx_name, T_, L_, v, lv in (
+            ("T", m.PtPath, List[m.Pt], path, pts),
+            ("List", List[m.PtPath], List[List[m.Pt]], [path], [pts]),
+            ("Optional", Optional[m.PtPath], Optional[List[m.Pt]], path, pts),
+            ("Dict", Dict[str, m.PtPath], Dict[str, List[m.Pt]], {"k": path}, {"k": pts}),
+        ):
+            for conv_name, skw, dkw in (("none", {}, {}), ("dynamic", {"conversion": m.pt_to_str}, {"conversion": m.pt_from_str})):
+                st.case("collection_like", ctx_name, conv_name)
+                a, b = run(lambda: serialize(T_, v, **skw)), run(lambda: serialize(L_, lv, **skw))
+                if a != b:
+                    viol("collection_like", f"serialize({ctx_name}[PtPath], conversion={conv_name}) = {a}; with List[Pt] in its place {b}", context=ctx_name, conv=conv_name, direction="serialize")
+                sa, sb = run(lambda: serialization_schema(T_, **skw)), run(lambda: serialization_schema(L_, **skw))
+                if sa != sb:
+                    viol("collection_like_schema", f"serialization_schema({ctx_name}[PtPath], conversion={conv_name}) = {sa} != {sb}", context=ctx_name, conv=conv_name)
+                if b[0] == "ok":
+                    d = b[1]
+                    ga, gb = run(lambda: deserialize(T_, d, **dkw)), run(lambda: deserialize(L_, d, **dkw))
+                    if ga[0] != gb[0] or (ga[0] == "ok" and serialize(T_, ga[1], **skw) != d):
+                        viol("collection_like", f"deserialize({ctx_name}[PtPath], {d!r}, conversion={conv_name}) = {ga}; List[Pt] gives {gb}", context=ctx_name, conv=conv_name, direction="deserialize")
+                    da, db = run(lambda: deserialization_schema(T_, **dkw)), run(lambda: deserialization_schema(L_, **dkw))
+                    if da != db:
+                        viol("collection_like_schema", f"deserialization_schema({ctx_name}[PtPath], conversion={conv_name}) = {da} != {db}", context=ctx_name, conv=conv_name)
+        st.case("collection_like", "field")
+        dr = m.Drawing("d", path, m.PtPath(m.Pt(3, 4)))
+        exp = {"name": "d", "outline": ["0,0", "1,2"], "raw": [{"x": 3, "y": 4}]}
+        got = run(lambda: serialize(m.Drawing, dr))
+        if got != ("ok", exp):
+            viol("collection_like", f"serialize(Drawing) = {got}, expected {exp}", context="field", conv="field", direction="serialize")
+        back = run(lambda: deserialize(m.Drawing, exp))
+        if back != ("ok", dr):
+            viol("collection_like", f"deserialize(Drawing, {exp}) = {back}", context="field", conv="field", direction="deserialize")
+        sch = run(lambda: serialization_schema(m.Drawing))
+        if sch[0] != "ok" or sch[1]["properties"]["outline"].get("items") != {"type": "string"} or sch[1]["properties"]["raw"].get("items", {}).get("type", "object") != "object":
+            viol("collection_like_schema", f"serialization_schema(Drawing) = {sch}", context="field", conv="field")
+        sys.modules.pop(m.__name__, None)
+        apischema.cache.reset()
+    _guard('collection-like class with a registered conversion under a dynamic conversion', _sec_7)
+    st.count("special_worlds", 10)
 
 
 
